@@ -418,7 +418,7 @@ def rule_nmifloor(ctx):
 
 RULES = [
     ("C16.ARIFORM", 1, rule_ariform),
-    ("C16.KWVIEW", 5, common.shared("c03", "rule_kwview", "C16.KWVIEW", keep=lambda o: o.construct.startswith("segment."))),
+    ("C16.KWVIEW", 3, common.shared("c03", "rule_kwview", "C16.KWVIEW", keep=lambda o: o.construct.startswith("segment."))),
     ("C16.NCEGUARD", 2, common.shared("c12", "rule_nceguard", "C16.NCEGUARD")),
     ("C16.NMIFLOOR", 1, rule_nmifloor),
     ("C16.NCEFORM", 5, rule_nceform),
